@@ -29,6 +29,60 @@ def _norm_empty_dict_arg(text):
     return ast.dump(tree)
 
 
+SUBKEY_ID = 'C09-commented-subclass-key-sorting'
+
+
+class _SortDictEntries(__import__('ast').NodeTransformer):
+    def visit_Dict(self, node):
+        import ast
+        self.generic_visit(node)
+        pairs = sorted(zip(node.keys, node.values), key=lambda kv: ast.dump(kv[0]))
+        node.keys = [k for k, _v in pairs]
+        node.values = [v for _k, v in pairs]
+        return node
+
+
+def _norm_dict_order(text):
+    import ast
+    tree = ast.parse('(' + text + '\n)', mode='eval')
+    PC._SortSets().visit(tree)
+    _SortDictEntries().visit(tree)
+    return ast.dump(tree)
+
+
+def _sub_seq_with_comment(t):
+    """does the term contain a tuple/frozenset SUBCLASS instance with a comment wrapper inside it?"""
+    k = t[0]
+    if k == 'sub':
+        return (t[2][0] in ('tuple', 'frozenset') and bool(attached(t[2]))) or _sub_seq_with_comment(t[2])
+    if k in ('commented', 'trailing'):
+        return _sub_seq_with_comment(t[1])
+    if k in ('list', 'tuple', 'set', 'frozenset'):
+        return any(_sub_seq_with_comment(x) for x in t[1])
+    if k == 'dict':
+        return any(_sub_seq_with_comment(a) or _sub_seq_with_comment(b) for a, b in t[1])
+    if k == 'call':
+        return any(_sub_seq_with_comment(x) for x in t[2]) or any(_sub_seq_with_comment(x) for _kw, x in t[3])
+    return False
+
+
+def subclass_key_with_comment(t):
+    """some dict key of the term contains a tuple/frozenset subclass instance holding a comment"""
+    k = t[0]
+    if k == 'dict':
+        return any(_sub_seq_with_comment(a) or subclass_key_with_comment(a) or subclass_key_with_comment(b)
+                   for a, b in t[1])
+    if k in ('commented', 'trailing'):
+        return subclass_key_with_comment(t[1])
+    if k in ('list', 'tuple', 'set', 'frozenset'):
+        return any(subclass_key_with_comment(x) for x in t[1])
+    if k == 'sub':
+        return subclass_key_with_comment(t[2])
+    if k == 'call':
+        return any(subclass_key_with_comment(x) for x in t[2]) or any(subclass_key_with_comment(x) for _kw, x in t[3])
+    return False
+
+
 def attached(t, out=None):
     """[(kind, base term, text)] of every comment wrapper in the term, in document order"""
     out = out if out is not None else []
@@ -95,6 +149,9 @@ def oracle(c):
         if EMPTYSUB_ID and _norm_empty_dict_arg(c.text) == _norm_empty_dict_arg(plain_text) and \
                 any(k == 'trailing' and b[0] == 'sub' and b[2] == ('dict', []) for k, b, _t in att):
             return ('known', EMPTYSUB_ID, 'empty dict subclass with a trailing comment')
+        if c.cfg.get('sort_dict_keys') and subclass_key_with_comment(c.term) and \
+                _norm_dict_order(c.text) == _norm_dict_order(plain_text):
+            return ('known', SUBKEY_ID, 'order of entries: a key holds a tuple/frozenset subclass instance with a comment inside')
         return 'syntax tree differs from the uncommented value:\n%s\n--- vs ---\n%s' % (c.text[:300], plain_text[:300])
     cwords = []
     for tok in PC.comments_of(c.text):
@@ -153,6 +210,25 @@ def cases_for(tier):
                 spairs = [((('commented', ('str', 'k%d' % k), txt) if i == ci else ('str', 'k%d' % k)), ('int', k))
                           for i, k in enumerate(keys)]
                 cases.append(('sorted-keys', ('dict', spairs), dict(width=r.choice(widths), sort_dict_keys=True)))
+    # ... and through the comment wrappers of the elements of tuple / frozenset keys
+    def kt(k, ci, i, txt):
+        el = ('commented', ('int', k), txt) if i == ci else ('int', k)
+        return ('tuple', [el, ('int', 0)])
+    for txt in texts[:3]:
+        for keys in ([2, 1, 3], [3, 2, 1], [1, 3, 2]):
+            for ci in range(3):
+                pairs = [(kt(k, ci, i, txt), ('str', 'v%d' % k)) for i, k in enumerate(keys)]
+                cases.append(('sorted-keys', ('dict', pairs), dict(width=r.choice(widths), sort_dict_keys=True)))
+                cases.append(('sorted-keys', ('dict', pairs + [(('tuple', [('float', float('inf'))]), ('int', 0))]),
+                              dict(width=r.choice(widths), sort_dict_keys=True)))
+                nest = [(('tuple', [('int', 0), kt(k, ci, i, txt)]), ('int', k)) for i, k in enumerate(keys)]
+                cases.append(('sorted-keys', ('dict', nest), dict(width=r.choice(widths), sort_dict_keys=True)))
+                fz = [(('frozenset', [(('commented', ('int', j), txt) if (i == ci and j == 1) else ('int', j))
+                                      for j in range(1, k + 1)]), ('int', k)) for i, k in enumerate(keys)]
+                cases.append(('sorted-keys', ('dict', fz), dict(width=r.choice(widths), sort_dict_keys=True)))
+                # subclass instances as keys: the open finding
+                sub = [(('sub', 'plain', kt(k, ci, i, txt)), ('int', k)) for i, k in enumerate(keys)]
+                cases.append(('sorted-keys', ('dict', sub), dict(width=r.choice(widths), sort_dict_keys=True)))
     n = 1500 if tier == 'quick' else 25000
     k = 0
     while k < n:
